@@ -14,6 +14,7 @@ type evidence struct {
 
 	Runs, ColdRuns, Steps, SoloSteps, Switches, Preempts, Contended, Nontriv     uint64
 	Ops, OpsRun, OpsSkipped, CBCalls, GCs, Stalls, StallOps, LockWaits           uint64
+	LibGo, ChanOps, ChanWaits                                                    uint64
 	LateSpawns, Publishes, Capped, Overruns, DecOverflow, ClockJumps, ClockReads uint64
 	RunsByBuild                                                                  map[string]uint64
 	RunsByPhase                                                                  map[string]uint64
@@ -75,6 +76,9 @@ func (e *evidence) add(s *summary, phase string) {
 	e.Stalls += s.Stalls
 	e.StallOps += s.StallOps
 	e.LockWaits += s.LockWaits
+	e.LibGo += s.LibGo
+	e.ChanOps += s.ChanOps
+	e.ChanWaits += s.ChanWaits
 	e.LateSpawns += s.LateSpawns
 	e.Publishes += s.Publishes
 	e.Capped += s.Capped
@@ -187,6 +191,9 @@ func (e *evidence) write(path string) error {
 			"late_spawn":                 e.LateSpawns,
 			"publish":                    e.Publishes,
 			"cooperative_lock_waits":     e.LockWaits,
+			"library_goroutines_run_as_simulated_tasks":   e.LibGo,
+			"library_channel_operations":                  e.ChanOps,
+			"library_channel_operations_that_had_to_wait": e.ChanWaits,
 		},
 		"faults_not_injected": map[string]string{
 			"message loss/duplication/reordering/delay, partitions": "the library has no transport",
@@ -217,15 +224,17 @@ func (e *evidence) write(path string) error {
 			"harness": []string{"caller tasks", "user RenderFN callbacks (fault seam)", "seeded scheduler + inserted yields", "sync shim (only if the library imports sync)"},
 		},
 		"instrumentation": map[string]interface{}{
-			"statement_yields":   e.p.Instr.NumSites - e.p.Instr.ExitSites,
-			"exit_yields":        e.p.Instr.ExitSites,
-			"map_ranges_owned":   e.p.Instr.MapRanges,
-			"map_order_owned":    e.p.Instr.MapOrderOwned,
-			"typecheck_note":     e.p.Instr.TypeCheckNote,
-			"sync_shimmed":       e.p.Instr.UsesSync,
-			"atomic_shimmed":     e.p.Instr.UsesAtomic,
-			"clock_shimmed":      e.p.Instr.UsesTime,
-			"unowned_constructs": e.p.Instr.Unowned,
+			"statement_yields":         e.p.Instr.NumSites - e.p.Instr.ExitSites,
+			"exit_yields":              e.p.Instr.ExitSites,
+			"map_ranges_owned":         e.p.Instr.MapRanges,
+			"go_statements_owned":      e.p.Instr.GoStmts,
+			"channel_operations_owned": e.p.Instr.ChanOps,
+			"map_order_owned":          e.p.Instr.MapOrderOwned,
+			"typecheck_note":           e.p.Instr.TypeCheckNote,
+			"sync_shimmed":             e.p.Instr.UsesSync,
+			"atomic_shimmed":           e.p.Instr.UsesAtomic,
+			"clock_shimmed":            e.p.Instr.UsesTime,
+			"unowned_constructs":       e.p.Instr.Unowned,
 		},
 		"instrumented_files":               e.p.Instr.Files,
 		"library_imports_of_outside_state": e.p.Instr.Notes,
